@@ -298,6 +298,20 @@ def judgeAccepted (env : Env) (s : State) (c : Call) (r : Response) (s' : State)
     let v := if exact then v.check "C03" "C03_whole" (C03_whole s b p sz)
              else v.check "C03" "C03_whole_inexact" (C03_whole s b p sz)
     let v := if exact then v.check "C09" "C09_askFeeOK" (C09_askFeeOK ct s b p sz r) else v
+    -- C09 "over the bid's life the fees add up": what leaves the bid's quote + fee holdings on
+    -- this match (all of them when the match closes it) is what the contract pays out in the
+    -- quote denomination – fee to the fee account, fee share returned with a price improvement
+    -- (consequence of `C02_settled` and `C09_final_match`; evaluated where the quote
+    -- denomination is not also a base being delivered)
+    let v := match loadBid s b, s.asks.get? a with
+      | some bb, some aa =>
+        if !exact || bb.quote.denom == s.info.baseDenom || bb.quote.denom == aa.base then v else
+        let after : Nat × Nat := match loadBid s' b with
+          | some b' => (b'.remQuote, b'.remFee)
+          | none => (0, 0)
+        v.check "C09" "C09_feeLeavesWithFill"
+          (debit ct r.msgs ct bb.quote.denom == (bb.remQuote - after.1) + (bb.remFee - after.2))
+      | _, _ => v
     let v := v.check "C17" "C17_feesPaidOK" (C17_feesPaidOK ct s b r)
     -- C09: the fees charged on a fill really go to the fee accounts (same predicate, theorem
     -- `C17_fees_paid`, no hypothesis)
